@@ -1,7 +1,8 @@
 (* C05 -- histories: the DML mechanism model refines the relational reference model.
-   repaired_refines   the mechanism with the proposed repairs, ALL histories;
-   tomb_refines_bag   the code as it is, all histories outside the recorded finding classes;
-   count_star_exact, never_reappear, and one refutation per finding class. *)
+   repaired_refines   the mechanism with the proposed INSERT repair, ALL histories;
+   tomb_refines_bag   the code as it is, all histories outside the open finding class 4;
+   count_star_exact, never_reappear (all histories), the refutation for class 4 and
+   former_classes_repaired for the six findings repaired upstream. *)
 From Coq Require Import ZArith List Bool Lia.
 From TV Require Import Model.SqlSpec Model.DmlSpec Model.Tombstone Proof.SqlSpecLaws Proof.TombBase
   Proof.TombIns Proof.TombDel Proof.TombUpd Proof.TombSame.
@@ -137,14 +138,15 @@ Proof.
     + inversion H; subst. split; [lia|reflexivity].
 Qed.
 
-Lemma step_true_dead : forall sch st s id, id < nextid st -> live_id st id = false ->
-  nextid st <= nextid (snd (step true sch st s)) /\ live_id (snd (step true sch st s)) id = false.
+Lemma step_dead : forall fx sch st s id, id < nextid st -> live_id st id = false ->
+  nextid st <= nextid (snd (step fx sch st s)) /\ live_id (snd (step fx sch st s)) id = false.
 Proof.
-  intros sch st s id Hid Hd. destruct s as [rows ret|w ret|sets w ret| |]; cbn [step].
+  intros fx sch st s id Hid Hd. destruct s as [rows ret|w ret|sets w ret| |]; cbn [step].
   - unfold do_insert. destruct (forallb (row_known (s_tys sch)) rows); [|cbn [snd]; split; [lia|exact Hd]].
     destruct (ins_loop sch st rows 0) as [[b s1] n] eqn:E. destruct (ins_loop_ids _ _ _ _ _ _ _ id E Hid) as [H1 H2].
-    destruct b; cbn [snd]; [|split; [lia|exact Hd]].
-    unfold add_count, live_id. cbn [nextid ents]. split; [exact H1|]. unfold live_id in H2. rewrite H2. exact Hd.
+    destruct b; cbn [snd].
+    + unfold add_count, live_id. cbn [nextid ents]. split; [exact H1|]. unfold live_id in H2. rewrite H2. exact Hd.
+    + destruct fx; [split; [lia|exact Hd]|]. split; [exact H1|]. rewrite H2. exact Hd.
   - unfold do_delete. destruct (where_modelled w st); cbn [snd nextid]; [|split; [lia|exact Hd]].
     split; [lia|]. unfold live_id in *. cbn [ents]. unfold mark_del.
     destruct (existsb (fun e => (e_id e =? id) && live e) (map _ (ents st))) eqn:X; [|reflexivity].
@@ -169,29 +171,17 @@ Proof.
   - cbn [snd]. split; [lia|exact Hd].
 Qed.
 
-(* repaired mechanism: a row id that has been handed out and is not visible is never visible
-   again, whatever statements follow *)
-Theorem never_reappear_repaired : forall sch h st id, id < nextid st -> live_id st id = false ->
-  live_id (run true sch st h) id = false.
+(* a row id that has been handed out and is not visible (deleted, truncated away) is never
+   visible again, whatever statements follow -- the code as it is and the repaired mechanism,
+   ALL histories, from every state *)
+Theorem never_reappear : forall fx sch h st id, id < nextid st -> live_id st id = false ->
+  live_id (run fx sch st h) id = false.
 Proof.
-  intros sch h. induction h as [|s h IH]; intros st id Hid Hd; cbn [run]; [exact Hd|].
-  destruct (step_true_dead sch st s id Hid Hd) as [H1 H2]. apply IH; [lia|exact H2].
+  intros fx sch h. induction h as [|s h IH]; intros st id Hid Hd; cbn [run]; [exact Hd|].
+  destruct (step_dead fx sch st s id Hid Hd) as [H1 H2]. apply IH; [lia|exact H2].
 Qed.
 
-Lemma run_same : forall sch h st, hist_class sch st h = 0 -> run false sch st h = run true sch st h.
-Proof.
-  intros sch h. induction h as [|s h IH]; intros st Hc; cbn [run hist_class] in *; [reflexivity|].
-  destruct (stmt_class sch st s =? 0) eqn:K; [|rewrite Hc in K; discriminate]. apply Z.eqb_eq in K.
-  rewrite (step_same _ _ _ K) in Hc |- *. apply IH. exact Hc.
-Qed.
-(* the code as it is: the same, for histories outside the finding classes *)
-Theorem never_reappear : forall sch h st id, hist_class sch st h = 0 ->
-  id < nextid st -> live_id st id = false -> live_id (run false sch st h) id = false.
-Proof.
-  intros sch h st id Hc Hid Hd. rewrite (run_same _ _ _ Hc). apply never_reappear_repaired; assumption.
-Qed.
-
-(* ------------------------------------------------------------------ refutations: one per finding class *)
+(* ------------------------------------------------------------------ the open finding class, and the repaired ones *)
 Definition s2 : schema := mkSchema KNone [TInt; TInt] [false; false].
 Definition s3 : schema := mkSchema KNone [TInt; TInt; TInt] [false; false; false].
 Definition p2 : schema := mkSchema KPk [TInt; TInt] [false; false].
@@ -202,43 +192,42 @@ Definition refuted (k : Z) (sch : schema) (h : list stmt) : Prop :=
   hist_class sch t_empty h = k /\
   exists tr, spec_trace sch [] h = Some tr /\ trace false sch t_empty h <> tr.
 
-(* 1: DELETE of an already deleted row reports it again and decrements COUNT star twice *)
-Definition h_redelete := [ins1 1 10; ins1 2 20; SDelete (id_is 1) false; SDelete (id_is 1) true].
-(* 2: UPDATE of a deleted row brings it back *)
-Definition h_resurrect := [ins1 1 10; SDelete (id_is 1) false; SUpdate [(1%nat, ELit (VInt 5))] (id_is 1) false].
-(* 3: TRUNCATE counts tombstones *)
-Definition h_truncate := [ins1 1 10; ins1 2 20; SDelete (id_is 1) false; STruncate].
-(* 4: failing multi-row INSERT keeps its first rows *)
+(* 4: failing multi-row INSERT keeps its first rows (still open) *)
 Definition h_partial := [ins1 1 10; SInsert [[VInt 2; VInt 20]; [VInt 1; VInt 30]] false].
-(* 5: UPDATE .. WHERE pk = literal RETURNING star returns no rows *)
+Theorem class4_refuted : refuted 4 p2 h_partial.
+Proof. split; [vm_compute; reflexivity|eexists; split; [vm_compute; reflexivity|vm_compute; discriminate]]. Qed.
+Theorem count_star_refuted :
+  let st := run false p2 t_empty h_partial in count_star st = 1 /\ zlen (visible st) = 2.
+Proof. vm_compute. split; reflexivity. Qed.
+
+(* the witnesses of the repaired findings F-C05-1, 2, 3, 5, 6, 7 *)
+(* 1: DELETE of an already deleted row reported it again and decremented COUNT star twice *)
+Definition h_redelete := [ins1 1 10; ins1 2 20; SDelete (id_is 1) false; SDelete (id_is 1) true].
+(* 2: UPDATE of a deleted row brought it back *)
+Definition h_resurrect := [ins1 1 10; SDelete (id_is 1) false; SUpdate [(1%nat, ELit (VInt 5))] (id_is 1) false].
+(* 3: TRUNCATE counted tombstones *)
+Definition h_truncate := [ins1 1 10; ins1 2 20; SDelete (id_is 1) false; STruncate].
+(* 5: UPDATE .. WHERE pk = literal RETURNING star returned no rows *)
 Definition h_onepass := [ins1 1 10; SUpdate [(1%nat, ELit (VInt 5))] (id_is 1) true].
-(* 6: SET c1 = 5, c2 = c1 reads the new c1 *)
+(* 6: SET c1 = 5, c2 = c1 read the new c1 *)
 Definition h_mix := [SInsert [[VInt 1; VInt 10; VInt 100]] false;
                      SUpdate [(1%nat, ELit (VInt 5)); (2%nat, ECol 1)] None false].
-(* 7: SET c1 = c1 + 1 fails on a NULL c1 *)
+(* 7: SET c1 = c1 + 1 failed on a NULL c1 *)
 Definition h_nullarith := [SInsert [[VInt 1; VNull]] false;
                            SUpdate [(1%nat, EArith AAdd (ECol 1) (ELit (VInt 1)))] None false].
 
-Ltac refute := split; [vm_compute; reflexivity|eexists; split; [vm_compute; reflexivity|vm_compute; discriminate]].
-Theorem class1_refuted : refuted 1 s2 h_redelete. Proof. refute. Qed.
-Theorem class2_refuted : refuted 2 s2 h_resurrect. Proof. refute. Qed.
-Theorem class3_refuted : refuted 3 s2 h_truncate. Proof. refute. Qed.
-Theorem class4_refuted : refuted 4 p2 h_partial. Proof. refute. Qed.
-Theorem class5_refuted : refuted 5 p2 h_onepass. Proof. refute. Qed.
-Theorem class6_refuted : refuted 6 s3 h_mix. Proof. refute. Qed.
-Theorem class7_refuted : refuted 7 s2 h_nullarith. Proof. refute. Qed.
+(* on each of them the code before the repairs (trace_old) differed from the reference and the
+   code as it is (trace false) gives the reference's answers; none is in a class any more *)
+Definition repaired_on (sch : schema) (h : list stmt) : Prop :=
+  hist_class sch t_empty h = 0 /\
+  exists tr, spec_trace sch [] h = Some tr /\ trace false sch t_empty h = tr /\ trace_old sch t_empty h <> tr.
+Ltac repaired := split; [vm_compute; reflexivity|eexists; split; [vm_compute; reflexivity|split; [vm_compute; reflexivity|vm_compute; discriminate]]].
+Theorem former_classes_repaired :
+  repaired_on s2 h_redelete /\ repaired_on s2 h_resurrect /\ repaired_on s2 h_truncate /\
+  repaired_on p2 h_onepass /\ repaired_on s3 h_mix /\ repaired_on s2 h_nullarith.
+Proof. repeat split; try (vm_compute; reflexivity); try (eexists; split; [vm_compute; reflexivity|split; [vm_compute; reflexivity|vm_compute; discriminate]]). Qed.
 
-(* the deleted row of h_resurrect is visible again; COUNT star of h_redelete is 0 with one row visible *)
-Theorem never_reappear_refuted :
-  let st := run false s2 t_empty [ins1 1 10; SDelete (id_is 1) false] in
-  live_id st 1 = false /\ 1 < nextid st /\
-  live_id (run false s2 st [SUpdate [(1%nat, ELit (VInt 5))] (id_is 1) false]) 1 = true.
-Proof. vm_compute. repeat split; reflexivity. Qed.
-Theorem count_star_refuted :
-  let st := run false s2 t_empty h_redelete in count_star st = 0 /\ visible st = [[VInt 2; VInt 20]].
-Proof. vm_compute. split; reflexivity. Qed.
-(* the same histories on the repaired mechanism give the reference's answers *)
-Theorem repaired_witnesses :
-  Forall (fun p => exists tr, spec_trace (fst p) [] (snd p) = Some tr /\ trace true (fst p) t_empty (snd p) = tr)
-    [(s2, h_redelete); (s2, h_resurrect); (s2, h_truncate); (p2, h_partial); (p2, h_onepass); (s3, h_mix); (s2, h_nullarith)].
-Proof. repeat constructor; eexists; (split; [vm_compute; reflexivity|vm_compute; reflexivity]). Qed.
+(* the open witness on the mechanism with the proposed repair *)
+Theorem repaired_witness :
+  exists tr, spec_trace p2 [] h_partial = Some tr /\ trace true p2 t_empty h_partial = tr.
+Proof. eexists; split; vm_compute; reflexivity. Qed.
